@@ -951,6 +951,7 @@ class H3Connection:
             stream.frame_type == FrameType.DATA
             and stream.frame_size is not None
             and len(stream.buffer) < stream.frame_size
+            and not stream_ended
         ):
             stream.content_length += len(stream.buffer)
             http_events.append(
